@@ -889,7 +889,25 @@ func (g *c03ProgGen) class(depth int, named, decl bool) c03Piece {
 				parts = append(parts, ";")
 			}
 			s += " " + fs + ")"
-		case 1: // static block
+		case 1: // static block (or a private getter / setter pair: the one way a private name is declared twice)
+			if r.Chance(1, 3) {
+				pn := "#" + g.fresh()
+				vn := g.fresh()
+				st, sts := "", ""
+				if static {
+					st, sts = "static ", "static "
+				}
+				gb := g.body(depth-1, false, false, true)
+				sb := g.body(depth-1, false, false, true)
+				getter := c03S("Method("+sts+"get "+pn+" Params() "+gb.str+")", st+"get", pn, "(", ")", gb)
+				setter := c03S("Method("+sts+"set "+pn+" Params(Binding("+vn+")) "+sb.str+")", st+"set", pn, "(", vn, ")", sb)
+				if r.Bool() {
+					getter, setter = setter, getter
+				}
+				parts = append(parts, getter, setter)
+				s += " " + getter.str + " " + setter.str
+				break
+			}
 			sv := g.save()
 			g.inFunc, g.inAsync, g.inGen, g.inLoop, g.inSw, g.labels, g.inStat = true, false, false, false, false, nil, true
 			b := g.block(depth - 1)
@@ -1518,7 +1536,8 @@ func c03ProgramRejections(r *Rng, tier string, rep *Report) {
 		"let N; var N;", "var N; let N;", "const N = 1; var N;", "let N, N;", "let [N, N] = a;", "const {N, p: N} = a;",
 		"let N; { var N }", "{ let N; { var N } }", "class N {} class N {}", "let N; function N() {}", "function N() {} let N;",
 		"switch (a) { case 1: let N; case 2: let N; }", "let {p: [N], ...N} = a;", "const N = 1, M = 2, N = 3;",
-		"class C { #N; #N; }", "class C { #N() {} #N; }",
+		"class C { #N; #N; }", "class C { #N() {} #N; }", "class C { get #N() {} get #N() {} }", "class C { static get #N() {} set #N(v) {} }",
+		"class C { get #N() {} set #N(v) {} #N; }", "class C { static #N; #N; }", "class C { set #N(v) {} set #N(v) {} }",
 	}
 	funcLike := map[string]bool{"S": true, "function f() { S }": true, "x = () => { S };": true, "class C { m() { S } }": true, "async function* f() { S }": true}
 	ctx := []string{"S", "{ S }", "function f() { S }", "x = () => { S };", "class C { m() { S } }", "for (;;) { S }", "if (a) { S }",
@@ -1558,7 +1577,9 @@ func c03ProgramRejections(r *Rng, tier string, rep *Report) {
 	// and the look-alikes that are fine: shadowing in an inner scope, var twice, parameter and var
 	fine := []string{"let N; { let N; }", "var N; var N;", "function f(N) { var N; }", "let N; function f() { let N; }",
 		"for (let N;;) { let N; }", "let N; x = (N) => N;", "class C { #N; } class D { #N; }", "try {} catch (N) { { let N; } }",
-		"switch (a) { case 1: { let N; } case 2: { let N; } }", "let N; class C { N() {} }", "let N; x = { N: 1 };"}
+		"switch (a) { case 1: { let N; } case 2: { let N; } }", "let N; class C { N() {} }", "let N; x = { N: 1 };",
+		"class C { get #N() {} set #N(v) {} }", "class C { set #N(v) {} static #q9; get #N() {} }", "class C { static get #N() {} static set #N(v) {} }",
+		"class C { #N; m() { class B { #N } } }"}
 	for k := 0; k < m; k++ {
 		for _, d := range fine {
 			nm := names[r.Intn(len(names))]
